@@ -90,6 +90,12 @@ type Pipe struct {
 	WMarks []Mark
 	DMarks []Mark
 	readerGone bool
+	// CutAt (>= 0) makes the pipe deliver exactly CutAt bytes and no more: the byte that would cross
+	// the mark, and everything behind it, is discarded, and OnCut runs (driver context) at the instant
+	// the CutAt-th byte has been delivered — a link cut at an exact byte offset.
+	CutAt   int
+	OnCut   func()
+	cutDone bool
 	// WLog holds every byte accepted from the writer (only when Net.KeepLog is set): the harness's
 	// own ledger of what the library put on the wire, independent of delivery and of the peer.
 	WLog []byte
@@ -194,7 +200,7 @@ func New(w *core.World) *Net {
 }
 
 func (n *Net) newPipe(name string) *Pipe {
-	return &Pipe{n: n, name: name, cap: n.Cap, BrokenOff: -1}
+	return &Pipe{n: n, name: name, cap: n.Cap, BrokenOff: -1, CutAt: -1}
 }
 
 func (n *Net) newLink(address string) *Link {
@@ -772,7 +778,7 @@ func (p *Pipe) arm() {
 		s := p.segs[0]
 		p.segs = p.segs[1:]
 		var sink func([]byte)
-		var onEOF func()
+		var onEOF, onCut func()
 		if s.fin {
 			p.eof = true
 			p.finAt = p.n.W.Now()
@@ -782,6 +788,18 @@ func (p *Pipe) arm() {
 			p.n.W.Logf("deliver %s FIN", p.name)
 		} else {
 			p.infl -= len(s.data)
+			if p.cutDone {
+				// behind the cut: the bytes vanish
+				p.arm()
+				p.n.mu.Unlock()
+
+				return
+			}
+			if p.CutAt >= 0 && p.Delivered+len(s.data) >= p.CutAt {
+				s.data = s.data[:p.CutAt-p.Delivered]
+				p.cutDone = true
+				onCut = p.OnCut
+			}
 			p.Delivered += len(s.data)
 			p.DMarks = append(p.DMarks, Mark{p.Delivered, p.n.W.Now()})
 			if p.sink != nil {
@@ -795,11 +813,14 @@ func (p *Pipe) arm() {
 		}
 		p.arm()
 		p.n.mu.Unlock()
-		if sink != nil {
+		if sink != nil && len(s.data) > 0 {
 			sink(s.data)
 		}
 		if onEOF != nil {
 			onEOF()
+		}
+		if onCut != nil {
+			onCut()
 		}
 	})
 }
